@@ -9,7 +9,7 @@ TRUSTED_BASE = [
     "compression: a parameter (any comp/decomp with decomp c (comp c b) = b) in the theorems; in the differential the real codecs' behaviour is shipped with each case as (plain, compressed) pairs; gzip/snappy/lz4/zstd themselves are oracles",
     "protocol writers' WriteAt back-patching of placeholders is modelled by the final field values; sizeOfUnsignedVarInt's (bits.Len64(x|1)+6)/7 is modelled as the shift-loop count (both checked byte-exactly on every run, not proved equal)",
     "Go stdlib hash/crc32 is modelled by the bitwise reflected CRC of coq/Lib/Crc.v (compared on every case, not verified); time.Time by int64 nanoseconds (the zero time.Time, replaced by time.Now() in Conn, is outside the model)",
-    "coq/Model/Pages.v: protocol/buffer.go's pages, buffers and refs as an atomic-step transition system (each refc update / pool Get/Put one step; sync.Pool may forget pages); the harness translates what the real pageBuffer did (through /repo/protocol/verif_export_c05.go) into these steps and compares refcounts and the bytes read through every ref; real interleavings finer than one step (the window between the atomic decrement to 0 and pagePool.Put) are exercised only by the concurrent stress op; pageBuffer.Write's splitting (pg) and pageBuffer.ReadFrom's refill loop (pgr: the real ReadFrom through the hook, readers with arbitrary chunkings, zero-length reads, (n>0, err) returns and failing readers, against the extracted pb_read_from with a digest of page ids, offsets, lengths, content hash and refcounts after every operation) are both driven directly",
+    "coq/Model/Pages.v: protocol/buffer.go's pages, buffers and refs as an atomic-step transition system (each refc update / pool Get/Put one step; sync.Pool may forget pages); the harness translates what the real pageBuffer did (through /repo/protocol/verif_export_c05.go) into these steps and compares refcounts and the bytes read through every ref; real interleavings finer than one step (the window between the atomic decrement to 0 and pagePool.Put) are exercised only by the concurrent stress op; pageBuffer.Write's splitting (pg) pageBuffer.WriteAt's back-patching (pgr, when the hook file /repo/protocol/verif_export_c05b.go is present: ranges within a page, ending/starting on a boundary, straddling, spanning three pages, also under open refs; and always through the frame sweep) and pageBuffer.ReadFrom's refill loop (pgr: the real ReadFrom through the hook, readers with arbitrary chunkings, zero-length reads, (n>0, err) returns and failing readers, against the extracted pb_read_from with a digest of page ids, offsets, lengths, content hash and refcounts after every operation) are both driven directly",
     "the writers are pure functions in the model (the produced bytes are a value); the code's pooled scratch buffers and compressors on the produce side (bufferPool of write.go/recordbatch.go, codec writer pools, protocol page buffers) are tied only dynamically: concurrent-producer rounds (2-4 real Conns over slow in-memory peers that park a producer in the middle of flushing its batch while the others compress and write, batches below and above the 4 KiB write buffer, every codec; goroutines calling RecordSet.WriteTo concurrently) under GOMAXPROCS 1, 2, 8, every output decoded by the reference decoder, compared with that producer's input and byte-exact with the model; only the executed interleavings are covered",
     "ocaml/kvio.ml.in + ocaml/c05_driver.ml (hex interchange) and harness/kvfmt",
 ]
@@ -132,7 +132,18 @@ def pages_predicate(c):
     return None
 
 
+def frame_predicate(c):
+    g = c["go"]
+    if g == "ok":
+        return None
+    if g.startswith("BAD"):
+        return (None, "a Produce request / Fetch response frame whose record batch header crosses a 64 KiB page boundary is not what the reference decoder expects")
+    return (None, "frame sweep failed: " + g[:60])
+
+
 def predicate(c):
+    if c["op"] == "wf":
+        return frame_predicate(c)
     if c["op"] in ("pg", "pgc", "pgr"):
         return pages_predicate(c)
     return reader_predicate(c) if c["op"] == "rd" else writer_predicate(c)
@@ -161,7 +172,7 @@ def run_cases(ctx, n, big):
     gobin = L.go_build("c05")
     model = L.ocaml_build("c05")
     rc, out, err, dt = L.sh([gobin, "-seed", str(ctx.seed), "-n", str(n), "-big", str(big),
-                             "-pg", str(ctx.scale(40, 150)), "-bigrd", str(ctx.scale(1, 2)), "-pgr", str(ctx.scale(30, 150)), "-cc", str(ctx.scale(4, 12))], timeout=3000)
+                             "-pg", str(ctx.scale(40, 150)), "-bigrd", str(ctx.scale(1, 2)), "-pgr", str(ctx.scale(30, 150)), "-cc", str(ctx.scale(4, 12)), "-ww", str(ctx.scale(1, 2)), "-fs", str(ctx.scale(1, 2))], timeout=3000)
     if rc != 0:
         raise L.Fail("correspondence", "harness cmd/c05 crashed", (out[-1500:] + err[-2500:]))
     cases = L.parse_cases(out)
@@ -216,6 +227,9 @@ def correspondence(ctx):
                      "decreasing / > 2^31 ms apart times), compared byte-exact with the extracted model and decoded by the harness' independent codec; "
                      "concurrent producers: rounds of 2..4 Conns (WriteCompressedMessages, produce v2/v7, every codec, incompressible values below/above 4 KiB) whose scripted peers pause after 8/100/4096/4097 bytes of the produce request "
                      "and then read in small pieces (nested: each producer parked mid-flush while the next ones run; free: all at once), and 3..10 goroutines encoding RecordSet.WriteTo v1/v2 at the same time, under GOMAXPROCS 1, 2, 8, emitted as wc/wp cases; "
+                     "ww: the kafka.Writer path (one Writer batch per case through a RoundTripper that encodes the typed request with protocol.WriteRequest, produce v2..v8): every ordered pair of nil/empty/non-empty key and value patterns and longer random mixtures, "
+                     "what reaches the wire compared null-vs-empty exactly with what was given and byte-exact with the model; frame sweep (wf + in-frame wp): Produce requests v3..v8 and Fetch responses v4..v11 with three partitions whose second record set starts at 65536k-a "
+                     "for every a in -3..70 (each back-patched header field straddling, ending on and starting on a page boundary); "
                      "readers rd: reference-encoded sequences of 1..4 items (v0, v1, v1 wrappers per codec, v2 per codec, control, transactional, "
                      "offset gaps, compacted wrappers, corrupted CRCs, min inside the first item) through RecordSet.ReadFrom and messageSetReader, "
                      "plus in EVERY run the page-boundary suite: keyed v0/v1 messages, v0/v1 wrappers (every codec, many small or few page-spanning inner messages, "
